@@ -1869,6 +1869,53 @@ def ascontiguousarray(a, dtype=None):
     return a if a._c_contiguous() else a.copy()
 
 
+def isin(element, test_elements, invert=False):
+    e = asarray(element)
+    t = asarray(test_elements)._flat_values()
+    out = []
+    for v in e._flat_values():
+        r = False
+        for w in t:
+            r = _or(r, _as_boolval(v == w))
+        out.append(_not(r) if invert else r)
+    return ndarray._from_flat(out, e.shape, 'b')
+
+
+def take(a, indices, axis=None):
+    a = asarray(a)
+    if axis is not None and a.ndim != 1:
+        raise ModelGap("take along an axis")
+    return a.flatten()[asarray(indices)] if not isinstance(indices, (int, SymInt)) else a.flatten()[indices]
+
+
+def repeat(a, repeats, axis=None):
+    a = asarray(a)
+    if axis is not None or not isinstance(repeats, int):
+        raise ModelGap("repeat with an axis / per-element counts")
+    vals = [v for v in a._flat_values() for _ in range(repeats)]
+    return ndarray(vals, list(range(len(vals))), (len(vals),), a.kind)
+
+
+def ediff1d(a):
+    return diff(asarray(a).flatten())
+
+
+def argsort(a, axis=-1, kind=None):
+    a = asarray(a)
+    if a.ndim != 1 or a.size > 16:
+        raise ModelGap("argsort of a multi-dimensional / long array")
+    vals = a._flat_values()
+    if builtins.any(isinstance(v, (float, SymFloat)) and symx.truth(_as_boolval(isnan(v))) for v in vals):
+        raise ModelGap("argsort with NaN")
+    order = []
+    for i in range(len(vals)):          # insertion sort = what numpy does for short arrays (stable)
+        j = len(order)
+        while j > 0 and symx.truth(_as_boolval(vals[order[j - 1]] > vals[i])):
+            j -= 1
+        order.insert(j, i)
+    return _int_array(order)
+
+
 def roll(a, shift, axis=None):
     a = asarray(a)
     if axis is not None or a.ndim != 1:
@@ -2028,11 +2075,8 @@ def clip(a, lo, hi):
     return minimum(maximum(a, lo), hi)
 
 
-def in1d(*a, **k):
-    raise ModelGap("in1d")
-
-
-isin = in1d
+def in1d(ar1, ar2, invert=False):
+    return isin(asarray(ar1).flatten(), ar2, invert=invert)
 
 
 def __getattr__(name):
